@@ -9,6 +9,8 @@ def grid_check(ctx, own, *, nontrivial_note=None, quick_fast=900, quick_slow=48,
     jobs = []
     jobs += workload.synth_jobs(ctx, oracles, ctx.pick(quick_fast, thorough_fast), res_models=(3, 4), **synth_kw)
     jobs += workload.synth_jobs(ctx, oracles, ctx.pick(quick_slow, thorough_slow), res_models=(1, 2), **synth_kw)
+    # cells outside the main walk (direct-use heat with a power-plant type code; cylindrical reservoir)
+    jobs += workload.synth_jobs(ctx, oracles, max(24, ctx.pick(quick_fast, thorough_fast) // 12), cells=gen.odd_cells(), **synth_kw)
     if examples:
         names = gen.FAST_EXAMPLES + gen.SLOW_EXAMPLES
         jobs += workload.example_jobs(ctx, oracles, names, perturbed=ctx.pick(1, 8))
